@@ -376,6 +376,15 @@ Definition run_predict (x : xval) : xval :=
   | _ => bad_input
   end.
 
+(** the harness' scenario (L ports handovers runtime seed jitter d_bind d_send d_close slow_ms nslow gap_ms eager):
+    the prediction depends only on the number of ports, of handovers and of slow requests in flight *)
+Definition run_run (x : xval) : xval :=
+  match x with
+  | XL [XN n; XN k; XN _; XN _; XN _; XN _; XN _; XN _; XN _; XN c; XN _; XN _] => run_predict (XL [XN 1; XN n; XN k; XN c])
+  | _ => bad_input
+  end.
+
 Definition handover_table : list (bytes * (xval -> xval)) :=
   [ (B "handover.check", run_check);
-    (B "handover.predict", run_predict) ].
+    (B "handover.predict", run_predict);
+    (B "handover.run", run_run) ].
